@@ -154,8 +154,11 @@ class Recorder(object):
         step = kind in ("open", "write", "flush", "rename") or (kind == "close" and not (arg or "").startswith("r"))
         if step and self.die_at is not None:
             if self.mc == self.die_at:
-                self.died_at.append(self.n)
+                self.died_at.append((self.n, tuple(self.read_paths(a.paths) for a in self.logs)))
                 self.die_at = None
+                if self.snapshots:
+                    self.snap()           # what the process leaves when it dies here
+                self.n += 1
                 self.die_hook()
                 raise Killed()
             self.mc += 1
@@ -338,14 +341,17 @@ class CHECK(core.Check):
     PROPERTY = "C23"
     LEAN_MODULES = ["IofloModel.Props.C23B"]
     ENGINE = "rotateb"
-    N_QUICK = 90
+    N_QUICK = 75
     N_THOROUGH = 1000
     N_SEARCH = 200
     RULE = ("configurations keep 0-3 x cyclePeriod {0,.25,.5,1,2,3 s} x fileSize {0,40..300 bytes} x flushPeriod "
             "{0,1,1.5,2,4 s} x reuse x loggers with 1-3 logs of rules {always, once, update, change, deck, streak, never} (mixed); record streams of "
             "2-16 ticks with varying record sizes and batch sizes (deck/streak: 0-3 queued items per tick), tick lengths "
             "1/8-1.5 s, restarts (STOP/START) and 1-3 process lives (fresh Logger/Log objects on the same prefix; a life "
-            "ends after STOP or by a kill that discards the buffers); a small full grid of configurations over fixed "
+            "ends after STOP, by a kill between controls, or by a kill INSIDE a control after g of its file-system steps - "
+            "op `die <ctl> <g>`: between the renames of a rotation, between create and header, between header write and "
+            "flush, between the trial opens of a reopen, ... - followed by a restart on the files left); every g for "
+            "START / RUN-with-rotation / STOP on fixed streams; a small full grid of configurations over fixed "
             "streams; every primitive of every run is a crash point (read-back), and sampled crash points (all points for "
             "selected cases) are produced by killing a forked child; non-trivial = at least two records written; distinct "
             "by case content")
@@ -353,7 +359,9 @@ class CHECK(core.Check):
                "os.fsync and os.rename are intercepted, the directory is read back from disk before each one (what a kill "
                "at that point leaves) and the sequence of distinct crash states is compared with the Lean driver; a "
                "process life that ends by a kill is emulated by redirecting the open file descriptors to /dev/null (the "
-               "buffers never reach the files); sampled crash points are checked against a forked child really killed "
+               "buffers never reach the files; for a death inside a control this is done at the intercepted call and the call "
+               "stack is unwound with a BaseException, the runner's cleanup writing to /dev/null); every death inside a "
+               "control (quick: a sample) and sampled crash points are checked against a forked child really killed "
                "with os._exit",
                "a killed process loses its user-space buffers and nothing else: durability below fsync (power loss, page "
                "cache) is the operating system's contract and is not exercised",
@@ -364,8 +372,13 @@ class CHECK(core.Check):
     PARTIAL = ["all seven theorems are full, over any number of process lives and for every log rule, for the code with "
                "fix patch fixes/D53-log-reopen-empty-file-is-new.patch (Cfg.emptyIsNew = true); "
                "C23_D53_orig_headerless_after_empty_kill documents the code before the patch",
-               "not covered: process lives that end in the middle of a control (crash points inside a control are covered "
-               "for the files they leave, not for a restart from them), a different keep or directory layout in a later "
+               "process lives that end in the middle of a control are covered (Op.die / MOp.die: cut_spec shows the state a "
+               "new process starts from is as good as one reached between controls, so every theorem holds for the "
+               "lives that follow); observation: a rotation cut short by a kill leaves a hole among the copies which the "
+               "next life fills with an empty file, so one retained generation is lost early (nothing flushed and still "
+               "within the contiguous retained suffix is lost; the oracle accounts for it); the global order of the "
+               "primitives of a multi-log control (loop by loop, log by log) is in the driver, the theorems hold for "
+               "every vector of per-log cut points; not covered: a different keep or directory layout in a later "
                "life, failing renames / opens (OSError branches are in the model but proved unreachable), binary logs; "
                "loggers with several logs: C23_logs_lockstep shows every log of a multi-log logger is where the single-log "
                "logger would be, so all theorems hold per log and per-log crash point (C23_multi_*); one log raising an "
@@ -711,9 +724,11 @@ class CHECK(core.Check):
         total = len(rec.snaps)
         pts = list(range(total)) if kills == "all" else [k for k in kills if k < total]
         # every death inside a control is also produced for real: a forked child exits at that intercepted call
-        pts += [k for k in rec.died_at if k < total and k not in pts]
+        died = dict(rec.died_at)
+        if case.get("diekill", True):
+            pts += [k for k in died if k not in pts]
         for k in pts:
-            want = " | ".join(per_log[i][k] for i in range(n))
+            want = " | ".join(((died[k][i] or nothing) if k in died else per_log[i][k]) for i in range(n))
             got = self.kill_run(case, k)
             ok = (want in got) if isinstance(got, list) else False
             if isinstance(got, list) and not got and want == " | ".join([nothing] * n):
@@ -913,24 +928,25 @@ class CHECK(core.Check):
         # the process dies inside a control after g of its file-system steps, for every g: inside a run that flushes
         # and rotates (between the renames, between create and header, between header and reopen), inside the START
         # of a second life (reopen, trial opens, header), inside a STOP (flush, rotation, close); then a new life
-        for rules in ([["always"], ["always", "deck"]] if tier == "quick" else
+        for rules in ([["always", "deck"]] if tier == "quick" else
                       [["always"], ["deck"], ["always", "deck"], ["streak", "always", "update"]]):
             n = len(rules)
             p = puts(n)
+            dk = (lambda g: g % 5 == 2) if tier == "quick" else (lambda g: True)   # also really kill a child there
             for keep, fsize, reuse in ([(2, 0, True)] if tier == "quick" else
                                        [(2, 0, True), (1, 60, True), (0, 0, True), (2, 0, False)]):
                 cfgd = {"keep": keep, "cycle": 8, "fsize": fsize, "flush": 8, "reuse": reuse, "rules": rules}
                 tail = p + ["ctl start", "adv 8"] + p + ["ctl run", "ctl stop"]
                 for g in range(0, 4 + 13 * n):
-                    yield {"cfg": cfgd, "kills": [],
+                    yield {"cfg": cfgd, "kills": [], "diekill": dk(g),
                            "ops": p + ["ctl start", "adv 8"] + p + ["die run %d" % g] + tail}
-                    yield {"cfg": cfgd, "kills": [],
+                    yield {"cfg": cfgd, "kills": [], "diekill": dk(g),
                            "ops": p + ["ctl start", "adv 8"] + p + ["ctl run", "ctl stop", "reboot"] + p +
                                   ["die start %d" % g] + tail}
-                    yield {"cfg": cfgd, "kills": [],
+                    yield {"cfg": cfgd, "kills": [], "diekill": dk(g),
                            "ops": p + ["ctl start", "adv 8"] + p + ["ctl run", "adv 8"] + p + ["die stop %d" % g] + tail}
                 for g in range(0, 3 + 4 * n):      # a first START that dies: no file, an empty file, a header in the buffer
-                    yield {"cfg": cfgd, "kills": [], "ops": p + ["die start %d" % g] + tail}
+                    yield {"cfg": cfgd, "kills": [], "diekill": dk(g), "ops": p + ["die start %d" % g] + tail}
 
     def search(self, rng, n, tier):
         for i in range(n):
